@@ -32,7 +32,11 @@ CLAIM = dict(
          "volatile_no_fold. C02.guards_present re-proves by decide that the guards these theorems assume are the ones the current "
          "source contains. Tie: constant-rich random expression trees rendered under autoescape on/off/runtime-decided x "
          "optimized on/off and with every literal replaced by a context variable of the same value, in five statement positions; "
-         "all renderings must agree with each other and (for `{{ e }}`) with the Lean evaluator.",
+         "all renderings must agree with each other and (for `{{ e }}`) with the Lean evaluator. Named-template family: "
+         "eval-context filters (join, replace, xmlattr, urlize) and `~` over plain and safe-marked constants in templates loaded by "
+         "name (get_template / include / extends) under a callable autoescape (select_autoescape configurations and custom "
+         "callables) with names for which the callable decides unlike for None: folded, unoptimized and constant-lifted "
+         "renderings must agree (the compiler's and the run-time context's EvalContext must see the same name).",
     note="Trusted: Lean kernel; hand model of as_const (guards regenerated from source); value model by correspondence; custom "
          "finalize and extension nodes not modelled.",
     design_ref="§5 C08",
@@ -145,6 +149,254 @@ def raw_family_pass(res, jinja2):
     return n
 
 
+# ---------------------------------------------------------------------------------------------
+# named templates under a CALLABLE autoescape setting
+# ---------------------------------------------------------------------------------------------
+# Environment.autoescape may be a function of the template name (select_autoescape or any callable). The compiler asks it
+# about the template's name (CodeGenerator.visit_Template: EvalContext(env, name)) and so does the run-time context
+# (Context.__init__: EvalContext(env, name)); constant folding is only unobservable when both get the same answer. Everything
+# else in this runner uses from_string (name None) and a bool, where the two can never differ.
+
+def _ends_html(name):
+    return name is not None and name.lower().endswith((".html", ".htm"))
+
+
+def _not_txt(name):
+    return name is None or not name.endswith(".txt")
+
+
+def _only_strings(name):
+    return name is None
+
+
+def _never_strings(name):
+    return name is not None
+
+
+AE_CONFIGS = {
+    "select_autoescape()": lambda j: j.select_autoescape(),
+    "select_autoescape(default_for_string=False)": lambda j: j.select_autoescape(default_for_string=False),
+    "select_autoescape(('html','xml'),default=True)": lambda j: j.select_autoescape(("html", "xml"), disabled_extensions=("txt",),
+                                                                                    default=True),
+    "select_autoescape(enabled=('txt',),disabled=('html',),default_for_string=False)":
+        lambda j: j.select_autoescape(enabled_extensions=("txt",), disabled_extensions=("html",), default_for_string=False),
+    "select_autoescape((),default=True,default_for_string=False)": lambda j: j.select_autoescape((), default=True,
+                                                                                                 default_for_string=False),
+    "custom:ends_html": lambda j: _ends_html,
+    "custom:not_txt": lambda j: _not_txt,
+    "custom:only_strings": lambda j: _only_strings,
+    "custom:never_strings": lambda j: _never_strings,
+}
+AE_NAMES = ["t.txt", "t.html", "t.xml", "t", "sub/page.HTML", "mail.txt", "a.html.txt", "feed.xml", "notes.md", "x.htm"]
+NAMED_WRAPPERS = WRAPPERS + [
+    # the mode after a static block must be the template's own again (EvalContext.revert at both times)
+    ("after-block-true", "{%% autoescape true %%}{{ %s }}{%% endautoescape %%}|{{ %s }}"),
+    ("after-block-false", "{%% autoescape false %%}{{ %s }}{%% endautoescape %%}|{{ %s }}"),
+    ("filter-block", "{%% filter replace('x', %s) %%}axb{%% endfilter %%}"),
+]
+LOAD_ROUTES = ["get", "get", "include", "extends"]
+SENSITIVE_FILTERS = ("join", "replace", "xmlattr", "urlize")
+
+
+class NamedGen:
+    """expressions whose value depends on the escaping mode in force where they are EVALUATED: the eval-context filters
+    (join, replace, xmlattr, urlize) and `~` over plain and safe-marked constants, nested, and optionally next to a variable so
+    that only the optimizer (not the output statement) folds the constant part"""
+
+    PLAIN = ["<a>", "a&b", "<p>x</p>", "it's", 'say "q"', "x", "http://e.x/?a=1&b=<2>", "see www.ex.com/x <now>", "&lt;", ""]
+    KEYS = ["title", "class", "data-x", "id"]
+
+    def __init__(self, rng):
+        self.rng = rng
+
+    def pick(self, xs):
+        return self.rng.choice(xs)
+
+    def plain(self):
+        return X.cs(self.pick(self.PLAIN))
+
+    def safe(self):
+        return [X.A("filter"), X.cs(self.pick(["<b>", "<i>x</i>", "x", "a&amp;b", "<br>"])), self.pick(["safe", "safe", "escape"])]
+
+    def var(self):
+        return X.n(self.pick(["s", "u", "m", "i", "zz"]))
+
+    def operand(self, d, consts=0.9):
+        r = self.rng
+        if d > 0 and r.random() < 0.35:
+            return self.sens(d - 1, consts)
+        if r.random() > consts:
+            return self.var()
+        return self.safe() if r.random() < 0.5 else self.plain()
+
+    def sens(self, d, consts=0.9):
+        A, r = X.A, self.rng
+        k = r.random()
+        if k < 0.3:
+            items = [self.operand(d, consts) for _ in range(r.randrange(1, 4))]
+            if not any(i[0] == "filter" and i[2] in ("safe", "escape") for i in items):
+                items.insert(r.randrange(0, len(items) + 1), self.safe())
+            e = [A("filter"), [A(self.pick(["list", "list", "tuple"]))] + items, "join"]
+            if r.random() < 0.7:
+                e.append(self.pick([X.cs(", "), X.cs("<"), X.cs("&"), self.safe()]))
+            return e
+        if k < 0.5:
+            e = [A("filter"), self.operand(d, consts), "replace", X.cs(self.pick(["x", "<", "a", "&"])), self.operand(d, consts)]
+            if r.random() < 0.2:
+                e.append(X.c(1))
+            return e
+        if k < 0.65:
+            pairs = [[X.cs(key), self.operand(d, consts)] for key in r.sample(self.KEYS, r.randrange(1, 3))]
+            e = [A("filter"), [A("dict")] + pairs, "xmlattr"]
+            if r.random() < 0.3:
+                e.append(X.c(False))
+            return e
+        if k < 0.8:
+            e = [A("filter"), self.operand(d, consts), "urlize"]
+            if r.random() < 0.3:
+                e.append(X.c(r.randrange(5, 20)))
+            return e
+        return [A("cat")] + [self.operand(d, consts) for _ in range(r.randrange(2, 4))]
+
+    def top(self, d):
+        """a sensitive expression made observable: what it yields (str or Markup) meets one more `~`/join/test"""
+        A, r = X.A, self.rng
+        e = self.sens(d, consts=self.pick([1.0, 1.0, 0.85]))
+        k = r.random()
+        if k < 0.2:
+            return e
+        if k < 0.4:
+            return [A("cat"), e, X.cs("<>")]
+        if k < 0.6:      # constant part of a non-constant expression: folded by the optimizer only
+            return self.pick([[A("cat"), e, self.var()], [A("cat"), self.var(), e], [A("cat"), e, X.n("i"), X.cs("<>")]])
+        if k < 0.75:
+            return [A("filter"), [A("list"), e, self.pick([X.cs("<>"), self.var()])], "join", X.cs("&")]
+        if k < 0.85:
+            return [A("filter"), self.pick([X.cs("axb"), self.var()]), "replace", X.cs("x"), e]
+        if k < 0.93:
+            return [A("test"), e, "escaped"]
+        return [A("cond"), X.n("b"), e, [A("cat"), e, X.cs("&")]]
+
+
+def top_kind(e):
+    """the outermost eval-context-sensitive operation of the tree (for the violation key)"""
+    if isinstance(e, list):
+        if e and isinstance(e[0], core.Atom):
+            if e[0] == "filter" and e[2] in SENSITIVE_FILTERS:
+                return e[2]
+            if e[0] == "cat":
+                for x in e[1:]:
+                    k = top_kind(x)
+                    if k != "other":
+                        return k
+                return "concat"
+        for x in e:
+            k = top_kind(x)
+            if k != "other":
+                return k
+    return "other"
+
+
+def named_sources(name, route, body):
+    """the loader mapping and the template to render, for one way of reaching template `name` by name"""
+    if route == "include":        # reached from a parent whose own name decides the other way as often as not
+        return {name: body, "main.html": "{% include '" + name + "' %}", "main.txt": "{% include '" + name + "' %}"}
+    if route == "extends":
+        return {name: "{% extends 'base.tpl' %}{% block b %}" + body + "{% endblock %}", "base.tpl": "[{% block b %}{% endblock %}]"}
+    return {name: body}
+
+
+def named_render(jinja2, cfg, name, route, parent, body, optimized, data):
+    env = jinja2.Environment(loader=jinja2.DictLoader(named_sources(name, route, body)), autoescape=AE_CONFIGS[cfg](jinja2),
+                             optimized=optimized)
+    try:
+        return ("ok", env.get_template(parent if route == "include" else name).render(**data))
+    except Exception as e:  # noqa
+        cls = type(e).__name__
+        return ("err", X.ERRMAP.get(cls, "other:" + cls))
+
+
+def named_case(jinja2, cfg, name, route, parent, wrapper, src, lsrc, data, ldata):
+    pat = wrapper[1]
+    body, lbody = pat % ((src,) * pat.count("%s")), pat % ((lsrc,) * pat.count("%s"))
+    return [("optimized=True", named_render(jinja2, cfg, name, route, parent, body, True, data)),
+            ("optimized=False", named_render(jinja2, cfg, name, route, parent, body, False, data)),
+            ("constants-lifted", named_render(jinja2, cfg, name, route, parent, lbody, True, ldata)),
+            ("constants-lifted optimized=False", named_render(jinja2, cfg, name, route, parent, lbody, False, ldata))]
+
+
+def named_autoescape_pass(ctx, res, jinja2, broken):
+    """callable autoescape x templates loaded by name: folded / unoptimized / constant-lifted renderings must agree"""
+    rng = ctx.rng("c08", "named-autoescape")
+    ncases = ctx.pick(500, 5000) * (3 if broken else 1)
+    ng = NamedGen(rng)
+    g = X.Gen(rng, consts=0.75, mismatch=0.05)
+    trees = []
+    for _ in range(ncases):
+        trees.append(ng.top(rng.randrange(0, 3)) if rng.random() < 0.8 else g.str(rng.randrange(1, 4)))
+    lifted, lenvs = [], []
+    for t in trees:
+        env = {}
+        lifted.append(X.lift_consts(t, env))
+        lenvs.append({k: X.wire_to_py(jinja2, v) for k, v in env.items()})
+    srcs, lsrcs = X.pretty_batch(trees), X.pretty_batch(lifted)
+    cfgs = sorted(AE_CONFIGS)
+    decide = {c: AE_CONFIGS[c](jinja2) for c in cfgs}
+    differing = [(c, nm) for c in cfgs for nm in AE_NAMES if bool(decide[c](nm)) != bool(decide[c](None))]
+    evaluations, disagreements, distinct, mode_sensitive = 0, 0, set(), 0
+    dist = {"name_decides_unlike_None": 0, "name_decides_like_None": 0, "route": {}, "wrapper": {}, "config": {}, "kind": {}}
+    samples = []
+    for tree, src, lsrc, lenv in zip(trees, srcs, lsrcs, lenvs):
+        data = X.make_data(jinja2, rng)
+        if rng.random() < 0.8:
+            cfg, name = rng.choice(differing)
+        else:
+            cfg, name = rng.choice(cfgs), rng.choice(AE_NAMES)
+        route = rng.choice(LOAD_ROUTES)
+        parent = rng.choice(["main.html", "main.txt"])
+        wrapper = rng.choice(NAMED_WRAPPERS) if rng.random() < 0.5 else NAMED_WRAPPERS[0]
+        outs = named_case(jinja2, cfg, name, route, parent, wrapper, src, lsrc, data, dict(data, **lenv))
+        evaluations += len(outs)
+        differs = bool(decide[cfg](name)) != bool(decide[cfg](None))
+        kind = top_kind(tree)
+        dist["name_decides_unlike_None" if differs else "name_decides_like_None"] += 1
+        for k, v in (("route", route), ("wrapper", wrapper[0]), ("config", cfg), ("kind", kind)):
+            dist[k][v] = dist[k].get(v, 0) + 1
+        # measured, not an oracle: does this very template render differently when the mode is a plain bool True vs False?
+        pat = wrapper[1]
+        body = pat % ((src,) * pat.count("%s"))
+        both = []
+        for ae in (True, False):
+            try:
+                both.append(jinja2.Environment(autoescape=ae).from_string(body).render(**data))
+            except Exception as e:  # noqa
+                both.append(type(e).__name__)
+        evaluations += 2
+        sens = both[0] != both[1]
+        if differs and sens:
+            mode_sensitive += 1
+            distinct.add((src, wrapper[0], cfg, name, route))
+            if len(samples) < 3:
+                samples.append({"template": body, "name": name, "autoescape": cfg, "route": route, "lifted": lsrc})
+        first = outs[0][1]
+        for label, o in outs[1:]:
+            if o != first:
+                disagreements += 1
+                res.violate(f"C08:named-autoescape:{route}:{wrapper[0]}:{kind}",
+                            f"template {name!r} = {body!r} loaded by name ({route}) with autoescape={cfg} "
+                            f"[decides {bool(decide[cfg](name))} for {name!r}, {bool(decide[cfg](None))} for None]: "
+                            f"{outs[0][0]} renders {first!r} but {label} renders {o!r}"
+                            + (f" (lifted source {lsrc!r})" if label.startswith("constants-lifted") else ""),
+                            {"named": True, "src": src, "lifted": lsrc, "lifted_values": {k: repr(x) for k, x in lenv.items()},
+                             "wrapper": wrapper[0], "name": name, "autoescape": cfg, "route": route, "parent": parent,
+                             "data": {k: repr(x) for k, x in data.items()}})
+                break
+    return {"named_autoescape": {
+        "cases": ncases, "evaluations": evaluations, "disagreements": disagreements,
+        "mode_sensitive_and_name_decides_unlike_None": mode_sensitive, "distinct_nontrivial": len(distinct),
+        "distribution": dist, "samples": samples}}
+
+
 def run(ctx, res):
     jinja2 = core.import_jinja()
     rng = ctx.rng("c08")
@@ -213,23 +465,71 @@ def run(ctx, res):
             res.violate(f"C08:model:{tree[0]}", f"{{{{ {src} }}}} under [{v.label()}] renders {got!r}; the reference evaluator gives {want!r}",
                         {"src": src, "variant": v.label()})
     evaluations += raw_family_pass(res, jinja2)
+    named = named_autoescape_pass(ctx, res, jinja2, broken)
+    evaluations += named["named_autoescape"]["evaluations"]
+    res.coverage.update(named)
     res.coverage.update({
-        "evaluations": evaluations, "distinct_nontrivial": len(distinct),
+        "evaluations": evaluations, "distinct_nontrivial": len(distinct) + named["named_autoescape"]["distinct_nontrivial"],
         "rule": (f"{ntrees} constant-rich random expression trees (depth 1-{maxd}); each rendered in one of 5 statement positions under "
                  "one of 10 configurations (autoescape off/on, switched by a static autoescape block against the environment's setting, "
                  "decided at run time by an autoescape block with flag true/false, plus async and sandboxed-with-interception) with optimizer on and off and with every literal lifted into a context "
                  "variable; all renderings must be equal; `{{ e }}` forms are also compared with the Lean evaluator; distinct = "
-                 "distinct (source, position, configuration)"),
+                 "distinct (source, position, configuration). Plus the named-template family: "
+                 f"{named['named_autoescape']['cases']} expressions built from the eval-context filters (join, replace, xmlattr, "
+                 "urlize) and `~` over plain and safe-marked constants (nested; alone or next to a variable), placed in 8 statement "
+                 "positions in a template LOADED BY NAME (get_template / include / extends) under a callable autoescape setting "
+                 "(5 select_autoescape configurations, 4 custom callables) x 10 template names, 80% with a name for which the "
+                 "callable decides differently than for None; rendered optimized / unoptimized / constants lifted (optimizer on "
+                 "and off), all four must agree; non-trivial there = the name decides unlike None AND the template measurably "
+                 "renders differently under autoescape True and False"),
         "samples": [{"src": srcs[i], "lifted": lsrcs[i]} for i in (1, len(srcs) // 2)],
         "folded_at_compile_time_by_model": folded, "model_compared": len(jobs) - oom, "out_of_model": oom,
         "three_way_disagreements": disagreements, "node_kinds": kinds,
     })
 
 
+def _unrepr(text):
+    """the value a replay file recorded as repr(): literals and Markup(...) only (objects and functions are dropped)"""
+    import ast
+    from markupsafe import Markup
+
+    def conv(node):
+        if isinstance(node, ast.Call) and getattr(node.func, "id", None) == "Markup" and len(node.args) == 1:
+            return Markup(conv(node.args[0]))
+        if isinstance(node, ast.List):
+            return [conv(x) for x in node.elts]
+        if isinstance(node, ast.Tuple):
+            return tuple(conv(x) for x in node.elts)
+        if isinstance(node, ast.Dict):
+            return {conv(k): conv(v) for k, v in zip(node.keys, node.values)}
+        return ast.literal_eval(node)
+    return conv(ast.parse(text, mode="eval").body)
+
+
+def _replay_data(reprs):
+    out = {}
+    for k, text in reprs.items():
+        try:
+            out[k] = _unrepr(text)
+        except Exception:  # noqa
+            pass
+    return out
+
+
 def replay(ctx, case):
     jinja2 = core.import_jinja()
     c = case["case"]
     out = {}
+    if c.get("named"):
+        pat = dict(NAMED_WRAPPERS)[c["wrapper"]]
+        body, lbody = pat % ((c["src"],) * pat.count("%s")), pat % ((c["lifted"],) * pat.count("%s"))
+        data = _replay_data(c.get("data", {}))
+        ldata = dict(data, **_replay_data(c.get("lifted_values", {})))
+        head = f"{c['name']} autoescape={c['autoescape']} route={c['route']}"
+        for label, o in named_case(jinja2, c["autoescape"], c["name"], c["route"], c.get("parent", "main.html"), (c["wrapper"], pat),
+                                   c["src"], c["lifted"], data, ldata):
+            out[f"{head} {label}"] = o[1]
+        return out
     for ae in (False, True):
         for opt in (True, False):
             env = jinja2.Environment(autoescape=ae, optimized=opt)
